@@ -39,3 +39,24 @@ func VC15_LegacyReadFaults() {
 	}
 	vsym.Reach("end")
 }
+
+// VC15_LegacyShortReads: the same for the package-level reader.
+func VC15_LegacyShortReads() {
+	rec := &vFS{exists: true, shortReads: true}
+	rec.content = vsym.Bytes("file", 12)
+	rec.content = rec.content[:vsym.Concrete(len(rec.content), 64)]
+	vsym.Assume(len(rec.content) >= 4)
+	fs.SetFS(rec)
+	g := util.EFIGUID{Data1: vsym.U32("g.d1")}
+	attrs, buf, err := ReadEfivarsWithGuid("Aa", g)
+	if err == nil {
+		c := rec.content
+		vsym.Assert(uint32(attrs) == uint32(c[0])|uint32(c[1])<<8|uint32(c[2])<<16|uint32(c[3])<<24, "the stored attributes are returned")
+		vsym.AssertBytesEq(buf.Bytes(), c[4:], "the value returned is the stored value, however the reads were split")
+		vsym.Reach("ok")
+	}
+	if rec.nshort > 0 {
+		vsym.Reach("short")
+	}
+	vsym.Reach("end")
+}
